@@ -75,3 +75,10 @@ check(
     "LAPACK's dgelss answers an arbitrary beta (numerics trusted); scikit-learn's splitter (max_depth/min_samples_leaf) not encoded; fully symbolic weights only for node value and children weights (impurity identities decided on rational non-uniform weight grids); reals not floats.",
     "DESIGN.md 3.C09",
 )
+check(
+    "C08",
+    "bounded symbolic execution (SX, z3 LRA+UF) of the real fit/dispatch code over every routing of rows to buckets (symbolic choices realised), recording stubs with uninterpreted outputs; concrete-mode replay of the same scenario",
+    "For 3-4 training rows, 1-2 query rows, 2-3 buckets (+ an unseen cell), tree and discretiser binners, weights, regressor and classifier, n_jobs in {None,2,3}, task order in order/reversed, every assignment of rows to buckets and every shuffle: one local model per non-empty bucket (mapping_ a bijection), each trained on exactly its bucket's rows with their own targets and weights (classifier: plus exactly one borrowed row per missing class), transform_bins = bucket id or -1, predict / predict_proba rows = the bucket model's (fallback model for -1), batch == single rows, labels in classes_, an integer random_state never falls back to an unseeded generator.",
+    "Binner and local models are stubs (their own computations are scikit-learn's); joblib is a sequential map in two orders -- real thread schedules are not modelled; decision_function not covered.",
+    "DESIGN.md 3.C08",
+)
